@@ -208,12 +208,13 @@ FUNCS = ["whoosh.codec.whoosh3.W3PostingsWriter", "whoosh.codec.whoosh3.W3LeafMa
          "whoosh.formats.Positions", "whoosh.formats.Characters", "whoosh.formats.PositionBoosts", "whoosh.formats.CharacterBoosts",
          "whoosh.formats.Frequency", "whoosh.formats.Existence", "whoosh.fields.TEXT.index", "whoosh.writing.SegmentWriter.add_document"]
 ND = tiered(3, 4)
+NT4 = 3      # thorough: the fourth document takes one of the first 3 token sequences (empty, single term, repeated term)
 
 
 def _mk(fmt_i):
     name = "c10_format_" + FORMATS[fmt_i]
 
-    @h(bounds="format %s: %d documents, each text one of %d token sequences (empty, repeats, 72-character term, non-BMP and accented terms, per-token "
+    @h(bounds="format %s: %d documents (a fourth one, thorough only, from 3 sequences), each text one of %d token sequences (empty, repeats, 72-character term, non-BMP and accented terms, per-token "
               "boosts) chosen by a symbolic code; %d codec configurations (W3 block limit 1/2/3/128, compression, inlining off, memory codec); postings "
               "(ids, weights to float32, positions, characters, boosts), term statistics, vectors, field lengths" % (FORMATS[fmt_i], ND, NT, NC),
        funcs=FUNCS, examples=[dict(codes=[3, 7, 1, 4][:ND], cd=1), dict(codes=[0, 5, 6, 2][:ND], cd=5)], timeout=dict(quick=900, thorough=3000),
@@ -221,12 +222,12 @@ def _mk(fmt_i):
     def harness(codes: List[int], cd: int) -> Optional[str]:
         """
         pre: len(codes) == ND and 0 <= cd < NC
-        pre: all(0 <= c < NT for c in codes)
+        pre: all(0 <= c < NT for c in codes[:3]) and all(0 <= c < NT4 for c in codes[3:])
         post: _ is None
         """
         from harness.c07_model import sym_true_idx
         with notrace():
-            cs = [pick(sym_true_idx(codes, i), NT) for i in range(ND)]
+            cs = [pick(sym_true_idx(codes, i), NT if i < 3 else NT4) for i in range(ND)]
             r = run(cs, fmt_i, pick(cd, NC))
         tick(True)
         return r
